@@ -366,7 +366,7 @@ class Site:
                 addr: typing.Tuple[str, int] = CLIENT_ADDR, timeout: float = 30.0,
                 server_sock_wrapper: typing.Optional[typing.Callable] = None,
                 half_close: bool = True, segments: typing.Optional[typing.Sequence[int]] = None,
-                segment_gap: float = 0.008) -> Response:
+                segment_gap: float = 0.008, initial_delay: float = 0.0) -> Response:
         """Send `data` as one connection and collect everything the server writes.
 
         segments: byte offsets at which the client pauses (segment_gap seconds): the request reaches
@@ -397,6 +397,8 @@ class Site:
                         resp.tls_error = "%s: %s" % (type(e).__name__, e)
                         return
                 try:
+                    if initial_delay:
+                        time.sleep(initial_delay)     # a client that connects and says nothing for a while
                     if segments:
                         cuts = sorted({k for k in segments if 0 < k < len(data)})
                         last = 0
